@@ -5,6 +5,7 @@ import fsgen
 
 class C12(PropertyCheck):
     pid = "C12"
+    source_tables = ["FsConfig", "LZ"]   # tables / constants regenerated from /repo's source (gen/srctables.py)
     rule = ("streams: corpus (hand-written and minimised cases); every history up to length 2 (thorough 3) over a 13-call alphabet on three "
             "colliding paths from five two-layer states; random histories of write/read/exists/file_exists/directory_exists/resolve/"
             "create_dir/list/subdirectories and the typed helpers (<= 25 calls quick, <= 120 thorough) on 1-4 real temp-directory layers with colliding trees, "
